@@ -330,10 +330,13 @@ def one_fault_execution(case, ch, acc):
     sim = SimMachine(repo(), 1, 1, buffer_size=8)
     skip = [2]          # the first datagram (sver) is not subjected to faults
 
+    fates_taken = []
+
     def fate(sim_, rec):
         if rec["cmd"] == 0:
             return ["ok"]
         f = FATES[ch.choose(len(FATES), "fate")]
+        fates_taken.append(f)
         if f == "dup":
             return ["ok", "dup"]
         return [f]
@@ -355,8 +358,20 @@ def one_fault_execution(case, ch, acc):
         e0 = len(sim.errors)
         try:
             res = fn()
-        except TE:
+        except TE as e:
             acc.outcome("timeout")
+            # a command is given up only after n_tries (3) transmissions
+            # without an answer: fewer faults than that cannot justify it
+            n_faults = sum(1 for f in fates_taken if f in (
+                "lost", "reply_lost", "busy"))
+            if n_faults < 3:
+                acc.violation(dict(kind="unjustified_timeout",
+                                   op=case["op"]),
+                              dict(case, choices=list(ch.choices)),
+                              "%s raised TimeoutError (%s) although only %d "
+                              "datagrams were lost or refused (fates %r); "
+                              "n_tries is 3" % (case["op"], e, n_faults,
+                                                fates_taken))
             return
         except Exception as e:
             acc.violation(dict(kind="exception", exc=type(e).__name__,
@@ -401,10 +416,13 @@ def two_ops_execution(case, ch, acc):
     from rig.machine_control.scp_connection import TimeoutError as TE
     sim = SimMachine(repo(), 1, 1, buffer_size=8)
 
+    fates_taken = []
+
     def fate(sim_, rec):
         if rec["cmd"] == 0:
             return ["ok"]
         f = FATES2[ch.choose(len(FATES2), "fate")]
+        fates_taken.append(f)
         if f == "dup":
             return ["ok", "dup"]
         return [f]
@@ -424,8 +442,19 @@ def two_ops_execution(case, ch, acc):
                     want = None
                     res = s.mc.write(addr, data, 0, 0, 0)
                     model.mem[(0, 0)].write(addr, data)
-            except TE:
+            except TE as e:
                 acc.outcome("timeout")
+                n_faults = sum(1 for f in fates_taken
+                               if f in ("lost", "reply_lost", "busy") or
+                               isinstance(f, tuple))
+                if n_faults < 3:
+                    acc.violation(dict(kind="unjustified_timeout",
+                                       op="two_ops"),
+                                  dict(case, choices=list(ch.choices)),
+                                  "operation %d raised TimeoutError (%s) "
+                                  "although only %d datagrams were lost, "
+                                  "refused or late (fates %r); n_tries is 3"
+                                  % (i, e, n_faults, fates_taken))
                 return
             except Exception as e:
                 acc.violation(dict(kind="exception", exc=type(e).__name__,
